@@ -32,7 +32,11 @@
 #include "urcu-utils.h"
 #include "compat-smp.h"
 
+#if defined(URCU_VERIF) && defined(URCU_VERIF_SET_AFFINITY_CHECK_PERIOD)
+# define SET_AFFINITY_CHECK_PERIOD		URCU_VERIF_SET_AFFINITY_CHECK_PERIOD
+#else
 #define SET_AFFINITY_CHECK_PERIOD		(1U << 8)	/* 256 */
+#endif
 #define SET_AFFINITY_CHECK_PERIOD_MASK		(SET_AFFINITY_CHECK_PERIOD - 1)
 
 /* Data structure that identifies a call_rcu thread. */
